@@ -269,6 +269,64 @@ func verifSubsequence(sub, s string) bool {
 	return i == len(sub)
 }
 
+
+// verifDropsExplained: is the streamed text `o` the generated bytes `g` with only such bytes removed as flushPending's
+// trim to the longest valid UTF-8 prefix can remove?  Every maximal removed run must START at a byte at which
+// decoding `g` fails (an invalid byte, or a character that is never completed) — the trim then discards the rest of
+// that pending window, valid or not — except a final run, which may also start where a stop string occurs in `g`
+// (TruncateStop cut there).  Independent of the model and of runner/common: unicode/utf8 and strings only.
+func verifDropsExplained(o, g string, stops []string, endedByStop bool) bool {
+	n, m := len(g), len(o)
+	invalid := make([]bool, n)
+	for i := 0; i < n; {
+		r, w := utf8.DecodeRuneInString(g[i:])
+		if r == utf8.RuneError && w <= 1 {
+			invalid[i] = true
+			i++
+		} else {
+			i += w
+		}
+	}
+	stopAt := func(i int) bool {
+		if !endedByStop {
+			return false
+		}
+		for _, st := range stops {
+			if st != "" && strings.HasPrefix(g[i:], st) {
+				return true
+			}
+		}
+		return false
+	}
+	// can[i][k][d]: g[i:] can be explained against o[k:], d = 1 while inside a removed run
+	memo := make([]int8, (n+1)*(m+1)*2)
+	var can func(i, k, d int) bool
+	can = func(i, k, d int) bool {
+		if i == n {
+			return k == m
+		}
+		ix := (i*(m+1)+k)*2 + d
+		if memo[ix] != 0 {
+			return memo[ix] > 0
+		}
+		ok := false
+		if k < m && g[i] == o[k] && can(i+1, k+1, 0) {
+			ok = true
+		} else if (d == 1 || invalid[i]) && can(i+1, k, 1) {
+			ok = true
+		} else if k == m && stopAt(i) {
+			ok = true
+		}
+		if ok {
+			memo[ix] = 1
+		} else {
+			memo[ix] = -1
+		}
+		return ok
+	}
+	return can(0, 0, 0)
+}
+
 // verifTrimTail removes a trailing incomplete character of a valid-prefix string.
 func verifTrimTail(s string) string {
 	for i := 0; i < 4 && len(s) > 0 && !utf8.ValidString(s); i++ {
@@ -335,10 +393,18 @@ func verifLoopL2(out *zzverif.Out, line string, stops []string, script []verifEv
 		} else {
 			// F20: the generated bytes are not valid UTF-8 and flushPending dropped some of them;
 			// anything else (bytes added, reordered) is a different failure
+			// (a subsequence that this does not explain — valid text lost before an invalid byte, in a later window,
+			// after a stop was cut — is NOT the known finding)
 			class := "other"
-			if verifSubsequence(o, g) {
+			oo := o
+			if res.reason == "running" {
+				oo += strings.Join(res.pending, "") // still running: the tail is held back, not dropped
+			}
+			if verifDropsExplained(oo, g, stops, res.reason == "stop") {
 				class = "invalid-utf8-bytes-dropped"
 				out.Count("f20_dropped_bytes")
+			} else if verifSubsequence(o, g) {
+				class = "valid-text-lost"
 			}
 			out.L2("prefix-invalid-gen", line, fmt.Sprintf("class=%s out=%x gen=%x", class, o, g))
 		}
@@ -422,6 +488,21 @@ func verifLoopL2(out *zzverif.Out, line string, stops []string, script []verifEv
 		out.L2("reason-map", line, fmt.Sprintf("cause=%s reason=%s", cause, res.reason))
 	}
 	if !vp {
+		// generated bytes that are not valid UTF-8: the stop clauses stay on.  A stop string in the output is the known
+		// consequence of F20a (class=after-invalid-bytes) only if the generated bytes did NOT contain that stop
+		// contiguously and the output is the generated text minus bytes removed by the valid-prefix trim (the removal
+		// glued two pieces of text together); anything else is reported as new.
+		for _, st := range stops {
+			if strings.Contains(o, st) {
+				cl := "other"
+				if !strings.Contains(g, st) && !strings.HasPrefix(g, o) && verifDropsExplained(o, g, stops, res.reason == "stop") {
+					cl = "after-invalid-bytes"
+					out.Count("f20_stop_spelt_after_drop")
+				}
+				out.L2("stop-in-output", line, fmt.Sprintf("class=%s stop=%x out=%x gen=%x", cl, st, o, g))
+				break
+			}
+		}
 		return
 	}
 	class := "other"
@@ -467,6 +548,10 @@ func verifLoopL2(out *zzverif.Out, line string, stops []string, script []verifEv
 		}
 		if len(stops) == 1 && o != g[:earliest] {
 			out.L2("single-stop-output", line, fmt.Sprintf("out=%x want=%x", o, g[:earliest]))
+		}
+		// any stop set: the output is the generated text up to the EARLIEST first occurrence of a stop
+		if len(stops) > 1 && o != g[:earliest] {
+			out.L2("stop-output-not-earliest", line, fmt.Sprintf("class=%s out=%x want=%x", class, o, g[:earliest]))
 		}
 	} else {
 		// ends at EOS or at the limit: everything generated, except a trailing incomplete character
